@@ -90,10 +90,11 @@ func fieldOf(path string) string {
 func stratumPath(path string) string { return reIdx.ReplaceAllString(path, "[*]") }
 
 type mutHook struct {
-	m       *mutation
-	pool    *tamper.Pool
-	cached  bool
-	altered []byte
+	m        *mutation
+	pool     *tamper.Pool
+	cached   bool
+	original []byte
+	altered  []byte
 	applied bool   // the operator changed the bytes
 	err     string // the operator could not be applied
 }
@@ -104,6 +105,7 @@ func (h *mutHook) OnMessage(m *drive.Msg, _ sharing.ID) []byte {
 	}
 	if !h.cached {
 		h.cached = true
+		h.original = append([]byte(nil), m.Payload...)
 		h.altered, h.applied, h.err = h.compute(m.Payload)
 	}
 	if !h.applied {
@@ -146,7 +148,7 @@ func (h *mutHook) compute(payload []byte) (out []byte, applied bool, errText str
 
 // candidates lists the mutations of one message: every leaf with every operator that applies
 // to its kind, plus the whole-message operators.
-func candidates(a *adapter, k msgKey, rec, par *recorded, pool *tamper.Pool, rng *vh.Rng) []*mutation {
+func candidates(a *adapter, k msgKey, rec, par *recorded, pool *tamper.Pool, rng *vh.Rng, capPer int) []*mutation {
 	payload := rec.bytes[k]
 	root, err := tamper.Parse(payload)
 	if err != nil {
@@ -156,18 +158,48 @@ func candidates(a *adapter, k msgKey, rec, par *recorded, pool *tamper.Pool, rng
 	add := func(path, kind string, op tamper.Op) {
 		out = append(out, &mutation{proto: a.name, key: k, path: path, kind: kind, field: fieldOf(path), op: op})
 	}
-	leaves := tamper.Leaves(root)
+	allLeaves := tamper.Leaves(root)
+	// at most capPer leaves per structural position (large vectors are sampled)
+	groups := map[string][]*tamper.Leaf{}
+	var gorder []string
+	for _, l := range allLeaves {
+		g := stratumPath(l.Path) + "/" + l.Kind
+		if _, ok := groups[g]; !ok {
+			gorder = append(gorder, g)
+		}
+		groups[g] = append(groups[g], l)
+	}
+	var leaves []*tamper.Leaf
+	for _, g := range gorder {
+		ls := groups[g]
+		if len(ls) <= capPer {
+			leaves = append(leaves, ls...)
+			continue
+		}
+		picked := map[int]bool{}
+		for len(picked) < capPer {
+			picked[rng.Intn(len(ls))] = true
+		}
+		for i, l := range ls {
+			if picked[i] {
+				leaves = append(leaves, l)
+			}
+		}
+	}
 	// value nodes by shape, for swaps inside the message
 	type vn struct {
 		path string
 		node *tamper.Node
 	}
 	byShape := map[string][]vn{}
-	for _, l := range leaves {
+	for _, l := range allLeaves {
 		if l.Kind != tamper.KBytes && l.Kind != tamper.KUint {
 			continue
 		}
 		v := tamper.ValueNode(root, l)
+		if len(byShape[v.Shape()]) >= 64 {
+			continue
+		}
 		if p, ok := tamper.PathOf(root, v); ok {
 			byShape[v.Shape()] = append(byShape[v.Shape()], vn{p, v})
 		}
@@ -395,6 +427,20 @@ func evaluate(a *adapter, seed int64, m *mutation, pool *tamper.Pool, want strin
 	if m.key.to != 0 {
 		rep.rcptRej = isReject(o.tr.Verdicts[m.key.to])
 	}
+	semNoop := false
+	if (want == "bound" || want == "late") && !(rep.detected && (m.key.to == 0 || rep.rcptRej || want == "late")) {
+		if a.norm != nil && h.altered != nil {
+			if n := a.norm(m.key.round, m.key.to == 0, h.altered); n != nil && string(n) == string(h.original) {
+				semNoop = true
+			}
+		} else if a.norm == nil && (m.op.Kind == tamper.OpExtend || m.op.Kind == tamper.OpTruncate) {
+			semNoop = true // cannot tell without a typed decoder: no expectation
+		}
+	}
+	if semNoop {
+		want = "noop"
+		rep.modelWant = "noop"
+	}
 	switch want {
 	case "bound":
 		if m.key.to != 0 && !rep.rcptRej {
@@ -410,6 +456,8 @@ func evaluate(a *adapter, seed int64, m *mutation, pool *tamper.Pool, want strin
 	switch {
 	case len(rep.findings) > 0:
 		rep.class = "FAIL"
+	case semNoop:
+		rep.class = "same-message-after-decoding"
 	case rep.detected && m.key.to != 0 && rep.rcptRej:
 		rep.class = "rejected-by-recipient"
 	case rep.detected:
@@ -591,8 +639,39 @@ func prepare(a *adapter, seed int64, res *vh.Result) *protoState {
 
 // quotas: number of mutated runs per protocol and tier.
 var quota = map[string]map[string]int{
-	"quick":    {"session": 120, "gennaro": 60, "dkls23": 40, "lindell22": 60},
-	"thorough": {"session": 4000, "gennaro": 1500, "dkls23": 1200, "lindell22": 1500},
+	"quick": {"session": 90, "gennaro": 120, "hjky": 60, "redistribute": 110, "lindell22": 140, "boldyreva": 24, "dkls23": 16,
+		"canetti": 40, "dkls23-softspoken": 4, "lindell17": 6, "cggmp21": 4},
+	"thorough": {"session": 3000, "gennaro": 1500, "hjky": 800, "redistribute": 1500, "lindell22": 1500, "boldyreva": 200, "dkls23": 90,
+		"canetti": 1000, "dkls23-softspoken": 40, "lindell17": 60, "cggmp21": 40},
+}
+
+// opRank orders the strata so that a small quota first covers value changes of every field.
+func opRank(m *mutation) int {
+	if m.kind == tamper.KBytes || m.kind == tamper.KUint || m.kind == tamper.KNint {
+		switch m.op.Kind {
+		case tamper.OpFlip:
+			return 0
+		case tamper.OpReplace:
+			return 1
+		case tamper.OpSwap:
+			return 2
+		case tamper.OpZero:
+			return 3
+		case tamper.OpTruncate:
+			return 7
+		case tamper.OpExtend:
+			return 8
+		}
+	}
+	switch m.op.Kind {
+	case tamper.OpDrop:
+		return 4
+	case tamper.OpReplay:
+		return 5
+	case tamper.OpMalformed:
+		return 6
+	}
+	return 9
 }
 
 func main() {
@@ -603,7 +682,7 @@ func main() {
 	if tier != "thorough" {
 		tier = "quick"
 	}
-	ads := adapters()
+	ads := adapters(tier)
 	if os.Getenv("C04_PROTOS") != "" {
 		var sel []*adapter
 		for _, ad := range ads {
@@ -689,16 +768,20 @@ func main() {
 			continue
 		}
 		rng := vh.NewRng(a.Seed, "C04", "mut/"+ad.name, 0)
+		capPer := 3
+		if tier == "thorough" {
+			capPer = 24
+		}
 		var all []*mutation
 		for _, k := range st.rec.keys {
-			all = append(all, candidates(ad, k, st.rec, st.par, st.pool, rng)...)
+			all = append(all, candidates(ad, k, st.rec, st.par, st.pool, rng, capPer)...)
 		}
 		// strata: (round, b|u, structural position, leaf kind, operator); members differ in
 		// sender, recipient and index
 		strata := map[string][]*mutation{}
 		var order []string
 		for _, m := range all {
-			s := fmt.Sprintf("%d/%s/%s/%s/%s", m.key.round, bcastText(m.key), stratumPath(m.path), m.kind, m.op.Kind)
+			s := fmt.Sprintf("%d|%d/%s/%s/%s/%s", opRank(m), m.key.round, bcastText(m.key), stratumPath(m.path), m.kind, m.op.Kind)
 			if m.op.Kind == tamper.OpReplay {
 				s += "/" + strings.SplitN(m.op.Src, ":", 2)[0]
 			}
